@@ -299,8 +299,6 @@ func init() {
 // ---- C02-h: file-relative values are compared only within one file ----
 
 func init() {
-	// delegation support for the comparator-orientation check (C02-b, C01-c)
-	comparatorDelegate = nil
 	register("C02",
 		"C02-h (AST, typed): host-table indexes (HostGroup, ClientHost, ServerHost), packet/data offsets and the nanosecond time fields of a stream are relative to the index file the stream was read from. In every function of package index that takes two streams, a comparison of such a field of one stream with the same field of the other is guarded by the identity of their readers (`a.r == b.r` as a conjunct of the same condition or of an enclosing if): across files equal indexes name different hosts, so an unguarded shortcut makes streams with different addresses compare equal and the sort order — and with a limit the page — wrong.",
 		ruleC02FileRelative)
@@ -310,46 +308,6 @@ func ruleC02FileRelative(p *Prog, r *Res) {
 	const rule = "C02-h file-relative-compare-guarded"
 	r.Rule(rule + ": file-relative stream fields of two streams are compared only under a.r == b.r")
 	relative := map[string]bool{"HostGroup": true, "ClientHost": true, "ServerHost": true, "FirstPacketTimeNS": true, "LastPacketTimeNS": true, "PacketInfoStart": true, "DataStart": true, "index": true, "Index()": true}
-	// install the delegate resolver now that p is available
-	comparatorDelegate = func(info *types.Info, lit *ast.FuncLit, a, b types.Object) (*Fn, bool, bool) {
-		if len(lit.Body.List) != 1 {
-			return nil, false, false
-		}
-		ret, ok := lit.Body.List[0].(*ast.ReturnStmt)
-		if !ok || len(ret.Results) != 1 {
-			return nil, false, false
-		}
-		c, ok := ast.Unparen(ret.Results[0]).(*ast.CallExpr)
-		if !ok || len(c.Args) < 2 {
-			return nil, false, false
-		}
-		var owner *Fn
-		for _, f := range p.FnList {
-			if f.Short == "index" && f.Pkg.TypesInfo == info {
-				owner = f
-				break
-			}
-		}
-		if owner == nil {
-			return nil, false, false
-		}
-		fn := p.Callee(owner.Pkg, c)
-		if fn == nil {
-			return nil, false, false
-		}
-		h := p.FnOfObj(fn)
-		if h == nil || h.Lit != nil || h.Body() == nil {
-			return nil, false, false
-		}
-		x, y := identObj(info, c.Args[0]), identObj(info, c.Args[1])
-		switch {
-		case x == a && y == b:
-			return h, true, true
-		case x == b && y == a:
-			return h, false, true
-		}
-		return nil, false, false
-	}
 	n := 0
 	// every function body of package index, including literals in package-level variable initialisers (the comparator table)
 	type body struct {
@@ -583,4 +541,47 @@ func inspectAllParents(root ast.Node, f func(n ast.Node, parents []ast.Node) boo
 		stack = append(stack, n)
 		return true
 	})
+}
+
+// comparatorDelegate: the comparator literal is `return h(a, b, …)` (or h(b, a, …)) for a declared function h of the
+// same package; returns h, and whether the operands are passed in order. (A method of Prog: the thorough tier analyses
+// many programs in parallel, nothing about one of them may live in a package-level variable.)
+func (p *Prog) comparatorDelegate(info *types.Info, lit *ast.FuncLit, a, b types.Object) (*Fn, bool, bool) {
+	if len(lit.Body.List) != 1 {
+		return nil, false, false
+	}
+	ret, ok := lit.Body.List[0].(*ast.ReturnStmt)
+	if !ok || len(ret.Results) != 1 {
+		return nil, false, false
+	}
+	c, ok := ast.Unparen(ret.Results[0]).(*ast.CallExpr)
+	if !ok || len(c.Args) < 2 {
+		return nil, false, false
+	}
+	var owner *Fn
+	for _, f := range p.FnList {
+		if f.Short == "index" && f.Pkg.TypesInfo == info {
+			owner = f
+			break
+		}
+	}
+	if owner == nil {
+		return nil, false, false
+	}
+	fn := p.Callee(owner.Pkg, c)
+	if fn == nil {
+		return nil, false, false
+	}
+	h := p.FnOfObj(fn)
+	if h == nil || h.Lit != nil || h.Body() == nil {
+		return nil, false, false
+	}
+	x, y := identObj(info, c.Args[0]), identObj(info, c.Args[1])
+	switch {
+	case x == a && y == b:
+		return h, true, true
+	case x == b && y == a:
+		return h, false, true
+	}
+	return nil, false, false
 }
